@@ -51,8 +51,8 @@ type Obj struct {
 	Kind string `json:"kind"`
 	F1   string `json:"f1"`
 	F2   string `json:"f2"`
-	Own  string `json:"own"`  // me | othername | otherns | partial | none
-	Keep bool   `json:"keep"` // live object carries resource-policy: keep
+	Own  string `json:"own"` // me | othername | otherns | partial | none
+	Pol  string `json:"pol"` // live resource-policy annotation: none | keep | other
 	Dig  string `json:"dig"`  // digest of the whole object minus resourceVersion (byte-identity checks)
 }
 
@@ -218,7 +218,7 @@ func projectObject(o map[string]interface{}) Obj {
 		F1:   str(nested(o, append(fp, "f1")...)),
 		F2:   str(nested(o, append(fp, "f2")...)),
 		Own:  ownership(o),
-		Keep: policyOf(o) == "keep",
+		Pol:  policyOf(o),
 		Dig:  digest(b),
 	}
 }
